@@ -431,6 +431,18 @@ func NewDecoder(n int, sep string, r io.Reader) (sts.PayloadDecoder, error) {
 	}()
 	jr := json.NewDecoder(pr)
 	err = jr.Decode(&binReader.meta)
+	if n > 0 {
+		// Let the copy above end (it takes at most n bytes off the stream) and
+		// insist that the announced length is exactly that of the metadata: a
+		// longer one would take the bytes in between off the front of the first
+		// part and shift every part that follows
+		_, _ = io.Copy(io.Discard, pr)
+		if err == nil && jr.InputOffset() != int64(n) {
+			err = fmt.Errorf(
+				"metadata length mismatch: %d announced, %d decoded",
+				n, jr.InputOffset())
+		}
+	}
 	if sep != "" {
 		for _, part := range binReader.meta {
 			part.Name = filepath.Join(strings.Split(part.Name, sep)...)
